@@ -77,7 +77,7 @@ func storageRouting(inflows, laterals,  rainfall, evap data.ND1Float64,
 	}
 	qi := 0.0
 	outflow := 0.0
-	storage := 0.0
+	storage := s
 	inflow := 0.0
 
 	for i := 0; i < n; i++ {
